@@ -20,6 +20,7 @@ import (
 
 	"github.com/blevesearch/bleve/v2/analysis"
 	"github.com/blevesearch/bleve/v2/registry"
+	"github.com/blevesearch/bleve/v2/util"
 )
 
 const Name = "length"
@@ -57,11 +58,11 @@ func LengthFilterConstructor(config map[string]interface{}, cache *registry.Cach
 	min := 0
 	max := 0
 
-	minVal, ok := config["min"].(float64)
+	minVal, ok := util.ExtractNumericValFloat64(config["min"])
 	if ok {
 		min = int(minVal)
 	}
-	maxVal, ok := config["max"].(float64)
+	maxVal, ok := util.ExtractNumericValFloat64(config["max"])
 	if ok {
 		max = int(maxVal)
 	}
